@@ -7,12 +7,17 @@
 
      line 1     {"op":"setup","stmts":[{q, swapped, opaque}..],"params":[[..]..],"tabs":{..}}
      "begin"    a new connection with no parsed statement
+     "data"     the tables of the statements outside the model have been replaced by tables holding OTHER data on every
+                connection: a result is a function of (text, params, data as they are now) -- what has been seen so far
+                says nothing about the results from here on
      "parse"    {"s":k}                      statement object k is (re)created from its text
      "execute"  {"s":k,"ps":[i],"res":R,"same":b}     on the shared object       R = {ok,desc,rows} (modelled statement)
      "text"     {"s":k,"ps":[i],...}                  on a private object            = {ok,hash} (opaque statement: a
      "many"     {"s":k,"ps":[i,j,..],...}             parse once, execute each           ledger statement outside the model)
      "fresh"    {"s":k,"ps":[i],...}                  execute(text) on a NEW connection over the same data (no history at
                                                       all: the reference every other execution must agree with)
+                {.., "literal":text}                  the same on a new connection with the parameter values WRITTEN AS LITERALS
+                                                      into the text: what DenoteStmt defines the parametrised result to be
      "fold"     {"folded":V,"perrow":V,"params":V}    a constant expression folded by the compiler / evaluated per row
                                                       from columns / with the constants passed as parameters
    `same` = the source tables / ledger entries compared equal before and after the call.
@@ -46,7 +51,7 @@ TInit == Init /\ l = 2 /\ nbad = 0 /\ seen = EmptyFn
 
 Key(e) == <<e.s, e.ps[Len(e.ps)]>>
 Judge(e, out) ==
-    CASE e.op \in {"begin", "parse"} -> TRUE
+    CASE e.op \in {"begin", "parse", "data"} -> TRUE
       [] e.op = "fold" -> e.folded = e.perrow /\ e.params = e.folded
       [] OTHER ->
            /\ e.same
@@ -71,7 +76,8 @@ TNext ==
                         [] shared -> [stmts EXCEPT ![e.s].names = out.names]
                         [] OTHER -> stmts
           /\ results' = IF call THEN [n |-> results.n + 1, op |-> e.op, s |-> e.s, ps |-> e.ps, res |-> out.res] ELSE results
-          /\ seen' = IF call /\ Stmts[e.s].opaque /\ AllMatch(e.s, e.ps) /\ e.res.ok /\ Key(e) \notin DOMAIN seen
+          /\ seen' = IF e.op = "data" THEN EmptyFn
+                     ELSE IF call /\ Stmts[e.s].opaque /\ AllMatch(e.s, e.ps) /\ e.res.ok /\ Key(e) \notin DOMAIN seen
                      THEN [x \in (DOMAIN seen) \cup {Key(e)} |-> IF x = Key(e) THEN e.res.hash ELSE seen[x]]
                      ELSE seen
           /\ IF good THEN TRUE
@@ -81,7 +87,7 @@ TNext ==
           /\ IF l < Len(TraceLog) THEN TRUE
              ELSE PrintT(ToJson([verdict |-> "done", lines |-> Len(TraceLog), nbad |-> nb]))
           /\ l' = l + 1
-          /\ UNCHANGED <<data, cur>>
+          /\ UNCHANGED <<data, cur, cache>>
 
 TSpec == TInit /\ [][TNext]_tvars
 Consumed == TLCGet("stats").diameter - 1 = Len(TraceLog) - 1
